@@ -79,4 +79,13 @@ var plans = map[string]plan{
 			"for mutations that replace a whole schema, the accept direction is asserted only on base documents without defaults/examples (an ancestor's example could otherwise fail for an unrelated reason)",
 		},
 	},
+	"C02": {
+		Quick:    []stage{rapidStage(1_500)},
+		Thorough: []stage{rapidStage(80_000)},
+		Rule:     "cases are multi-file layouts (1-4 documents plus single-element files in nested directories, relative or absolute root) whose objects carry unique markers, with references at every position of the ten kinds in the forms same-document component, external fragment, external whole file, deep pointer, chains, cycles, path-item references, spelled plainly / with ./ / ../ / d/../ / absolutely; loaded through LoadFromURI or LoadFromDataWithPath. 1 in 6 has one reference redirected to a missing name / file / pointer and must fail to load. non-trivial = at least one external reference and one of: chain, cycle, ../ spelling, deep pointer, whole-file element, path-item reference. distinct = FNV-64a of the canonical case JSON.",
+		Assume: []string{
+			"oracle: internal/fsgen.Resolve follows the reference on the raw files (path.Join(dir(containing file), path), RFC 6901) to the end of its chain; identity by marker, then equality of the serialised value with the raw target",
+			"the file that textually contains a reference is known from the marker of the nearest enclosing generated object",
+		},
+	},
 }
